@@ -8,7 +8,10 @@ op    in + - = # < [ > ] & |      (# is !=, [ is <=, ] is >=, & is &&, | is ||)
 Name pools (so that the later phases of the assembler, which the C16 model does not cover, have a known verdict):
   k0..k4 integer constants, q0..q2 boolean constants, l0..l2 labels, m0/m1 constants defined as exactly the label
   l0/l1, g0 never declared, a = a level-0 parent (label or constant) with level-1 constants c0/c1 and a level-1 label n0.
-Constant expressions never mention labels or m*; conditions may mention anything."""
+Constant expressions never mention labels or m*; conditions may mention anything.
+Family `chain_case`: constants h0 = h1, h1 = h2, ... (1..5 links, declared forward / backward / shuffled) whose last link is a
+literal, a literal expression, an address-free non-static expression, another literal constant or a `-d` define, feeding an
+#if/#elif/#else, with or without other #if blocks that are spliced in the same / other rounds."""
 
 OPS_TXT = {'+': '+', '-': '-', '=': '==', '#': '!=', '<': '<', '[': '<=', '>': '>', ']': '>=', '&': '&&', '|': '||'}
 INTS = ["k0", "k1", "k2", "k3", "k4"]
@@ -527,7 +530,78 @@ def gen_inside_case(rng):
     return tree, defs
 
 
+CHAIN = ["h0", "h1", "h2", "h3", "h4"]
+
+
+def chain_case(rng, length, last, order, link_expr, cond_pos, others, define):
+    """a chain of constants h0 = h1, h1 = h2, ... feeding an #if/#elif/#else on h0.
+    last  : how the last link gets its value: 'lit' (literal, statically known), 'litexpr' (2 + 1: statically known),
+            'neg' (-(3): address-free but not statically known), 'viaconst' (z + 1 with z a literal constant), 'define'
+    order : 'forward' (each constant is declared BEFORE the one it reads), 'backward', 'shuffled'
+    others: extra #if blocks that are spliced in various rounds: subset of {'true', 'onq', 'late', 'declares'}
+    define: None | index of the chain constant a `-d` argument replaces"""
+    names = CHAIN[:length]
+    consts = []
+    for i, n in enumerate(names):
+        if i + 1 < length:
+            e = ('v', 0, [names[i + 1]])
+            if link_expr and rng.chance(0.5):
+                e = ('B', '+', e, ('i', 0)) if rng.chance(0.5) else ('B', '-', ('B', '+', e, ('i', 1)), ('i', 1))
+        elif last == 'lit' or last == 'define':
+            e = ('i', 1)
+        elif last == 'litexpr':
+            e = ('B', '-', ('i', 3), ('i', 2))
+        elif last == 'neg':
+            e = ('~', ('~', ('i', 1)))
+        else:
+            e = ('B', '-', ('v', 0, ["z"]), ('i', 1))
+        consts.append(('K', 0, n, e))
+    if order == 'backward':
+        consts.reverse()
+    elif order == 'shuffled':
+        consts = rng.shuffle(consts)
+    if last == 'viaconst':
+        consts.insert(rng.range(0, len(consts)), ('K', 0, "z", ('i', 2)))
+    h0 = ('v', 0, ["h0"])
+    sel = ('I', ('B', '=', h0, ('i', 1)), [('O', 0x11)],
+           [('I', ('B', '=', h0, ('i', 2)), [('O', 0x22)], [('O', 0x33)], False)], True)
+    extra_top, extra_end = [], []
+    if 'true' in others:
+        extra_top.append(('I', ('b', 1), [('O', 0x41)], None, False))
+    if 'onq' in others:
+        extra_top.append(('K', 0, "q0", ('b', 0)))
+        extra_end.append(('I', ('v', 0, ["q0"]), [('O', 0x42)], [('O', 0x43)], False))
+    if 'late' in others:
+        # an #if that can only be decided once the whole chain is known
+        extra_end.append(('I', ('B', '>', ('v', 0, [names[0]]), ('i', 0)), [('O', 0x44)], [('O', 0x45)], False))
+    if 'declares' in others:
+        # an arm that declares one more constant read by yet another condition
+        extra_top.append(('I', ('b', 1), [('K', 0, "y0", ('B', '+', ('v', 0, [names[-1]]), ('i', 1)))], None, False))
+        extra_end.append(('I', ('B', '=', ('v', 0, ["y0"]), ('i', 2)), [('O', 0x46)], [('O', 0x47)], False))
+    body = {'before': [sel] + consts, 'after': consts + [sel]}.get(cond_pos)
+    if body is None:
+        k = rng.range(0, len(consts))
+        body = consts[:k] + [sel] + consts[k:]
+    tree = [('O', 0xaa)] + extra_top + body + extra_end + [('O', 0xff)]
+    defs = []
+    if last == 'define':
+        defs.append("%s=%s" % (names[-1], rng.choice(["2", "0x2", "1", "3", "-1"])))
+    if define is not None and define < length and not (last == 'define' and define == length - 1):
+        defs.append("%s=%s" % (names[define], rng.choice(["2", "1", "0x3"])))
+    return tree, defs
+
+
+def gen_chain_case(rng):
+    others = [o for o in ('true', 'onq', 'late', 'declares') if rng.chance(0.25)] if rng.chance(0.6) else []
+    return chain_case(rng, rng.range(1, 5), rng.choice(['lit', 'lit', 'litexpr', 'neg', 'viaconst', 'define', 'define']),
+                      rng.weighted([('forward', 6), ('backward', 2), ('shuffled', 2)]), rng.chance(0.4),
+                      rng.choice(['before', 'after', 'middle']), others,
+                      rng.choice([None, None, None, 0, 1, 2]))
+
+
 def gen_case(rng):
+    if rng.chance(0.12):
+        return gen_chain_case(rng)
     if rng.chance(0.25):
         return gen_inside_case(rng)
     nested = rng.chance(0.3)
